@@ -11,7 +11,7 @@ and writes coq/gen/StatsGen.v (logical path PolarGen.StatsGen), definitions over
 "Python runtime" of Polar.Stats (pydict, pyrange, py_truediv, py_int, zfact ...).
 
 Subset: assignments, augmented assignments, dict-item assignments, `for v in [reversed(]range(..)[)]`
-accumulation loops (-> fold_left), conditional expressions, integer comparisons, + - * / **,
+accumulation loops (-> fold_left), conditional expressions, integer comparisons, + - * / // **,
 list comprehension over d.items() (-> map), x.reverse(), value-preserving CAS calls
 (.expand(), .simplify(), sympify) as identity, int(), factorial(), len(d.items()).
 Integer-valued Python expressions are typed nat (indices) or Z; every nat subtraction gets a
@@ -190,6 +190,11 @@ class Tr:
                 return E(f"(py_truediv {a.text} {b.text})", "F")      # int / int -> float
             a, b, t = self.join(a, b, n)
             return E(f"({a.text} / {b.text})", "Qc")
+        if isinstance(op, ast.FloorDiv):
+            if a.ty in ("nat", "Z") and b.ty in ("nat", "Z"):
+                a, b = self.to(a, "Z", n), self.to(b, "Z", n)
+                return E(f"({a.text} / {b.text})%Z", "Z")                 # int // int: floor division = Z.div
+            self.abort(n, "floor division of non-integers")
         sym = {ast.Add: "+", ast.Sub: "-", ast.Mult: "*"}.get(type(op))
         if sym is None:
             self.abort(n, "operator outside the subset")
